@@ -9,6 +9,7 @@ import Ekit.Lemmas.RBPtrRotate
 import Ekit.Lemmas.RBPtrAdd
 import Ekit.Lemmas.RBPtrDelete
 import Ekit.Lemmas.RBPtrSucc
+import Ekit.Lemmas.RBPtrFix
 
 namespace Ekit.MiniGo.RBHeap
 open Ekit.MiniGo Ekit.Gen.RBTreeGo
@@ -188,6 +189,11 @@ def FixSpec (cmpF : Int → Int → Int) : Prop :=
   ∀ fuel x st v st' t, Holds st t → x ∈ t.addrs → (st.h x).left = none → (st.h x).right = none →
     (st.h x).parent ≠ none →
     call cmpF procs fuel .fixAfterDelete [.ptr (some x)] st = .ok (v, st') → (st'.h x).parent ≠ none
+
+/-- `FixSpec` holds for the translated program (Lemmas/RBPtrFix.lean: the argument of `fixAfterDelete` stays a leaf) -/
+theorem fixSpec_holds : FixSpec cmpF :=
+  fun fuel x st v st' t hH hx hl hr hp h =>
+    Fix.fixAfterDelete_keeps_parent cmpF (call_specK cmpF) fuel x st v st' t hH hx hl hr hp h
 
 theorem ordwf_delete (hLaw : Ekit.RB.LawfulCmp cmpF) (hFix : FixSpec cmpF) (fuel : Nat) (k : Int) (st : St) (r : Val) (st' : St)
     (hW : OrdWF cmpF st) (h : call cmpF procs fuel .Delete [.int k] st = .ok (r, st')) : OrdWF cmpF st' := by
